@@ -151,6 +151,16 @@ theorem C04_main_parameter (f : Fields) (p0 p1 p2 p3 p4 p5 : Str)
   rw [hline, key, strip_pad _ _ _ (sp b0) (sp b1), strip_pad _ _ _ (sp b2) (sp b3),
     strip_pad _ _ _ (sp b4) (sp b5), hc.name_strip, hc.value_strip, hc.descr_strip]
 
+/-- the forced clause `param_unit_colon` holds whenever the delimiter colon is set off by a blank on both
+sides -/
+theorem C04_param_unit_colon_of_blanks (f : Fields) (p0 p1 p2 p3 p4 p5 : Str)
+    (h3 : p3 ≠ []) (h4 : p4 ≠ []) (b3 : Blank p3) (b4 : Blank p4) :
+    sepOk ((p0 ++ f.name ++ p1 ++ '.' :: (f.unit ++ p2 ++ f.value ++ p3)).reverse)
+      (p4 ++ f.descr ++ p5) = true := by
+  have := sepOk_blank_pads (p0 ++ f.name ++ p1 ++ '.' :: (f.unit ++ p2 ++ f.value)) p3 p4
+    (f.descr ++ p5) h3 h4 b3 b4
+  simpa [List.append_assoc] using this
+
 /-- **C04, every section kind**. -/
 theorem C04_main_all (sec : SecName) (f : Fields) (p0 p1 p2 p3 p4 p5 : Str)
     (hc : Conf sec f) (hp : PadOK sec f p0 p1 p2 p3 p4 p5) :
@@ -442,6 +452,7 @@ example :
 #print axioms C04_main
 #print axioms C04_main_parameter
 #print axioms C04_main_all
+#print axioms C04_param_unit_colon_of_blanks
 #print axioms C04_last_colon
 #print axioms C04_no_period
 #print axioms C04_numeric_unit_single_blank
